@@ -5,7 +5,27 @@
    [load_main fs main] is metamodel_from_file(main) for the folder contents [fs]
    (namespace name -> imports and rules with their references); [spec_resolve fs cur name] is
    the documented resolution computed from the file contents alone. *)
-From TxV Require Import Core.Base Model.Imports Proofs.ImportsProofs.
+From TxV Require Import Core.Base Gen.SrcImports Model.Imports Proofs.ImportsProofs.
+
+(* ---- tie to the current source (Gen/SrcImports.v is regenerated from textx/metamodel.py) ---- *)
+
+(* The look-up driven by the search steps found in TextXMetaModel.__getitem__ (their order,
+   the slice/reversal of the import list, the place where a qualified name is split) is the
+   documented look-up.  Re-proved on every run; fails when the source searches differently. *)
+Theorem C25_source_lookup_order : forall s cur name, lookup s cur name = lookup_doc s cur name.
+Proof. exact lookup_src_doc. Qed.
+Print Assumptions C25_source_lookup_order.
+
+(* _new_import as found in the source registers the import on every import statement (not only
+   when the file is loaded), normalises the import name, a new namespace starts with the
+   built-in namespace as its only import, and _cls_fqn builds namespace "." rule name. *)
+Theorem C25_source_imports :
+  (forall rec stk cur imp s, new_import rec stk cur imp s = new_import_doc rec stk cur imp s) /\
+  (forall cur imp, abs_import cur imp = norm_dots (rel_import cur imp)) /\
+  initial_imports = [BASE] /\
+  (forall c, fqn c = fqn_doc c).
+Proof. exact (conj new_import_src_doc (conj abs_import_normalised (conj initial_imports_base fqn_src_doc))). Qed.
+Print Assumptions C25_source_imports.
 
 (* ---- the look-up itself, for every meta-model state and any number of imports ---- *)
 
